@@ -1,6 +1,7 @@
 package main
 
 import (
+	"sync"
 	"os"
 	"bufio"
 	"fmt"
@@ -127,64 +128,110 @@ func (s *Solver) Close() {
 	s.cmd.Wait()
 }
 
-// Standalone solves cond in a fresh z3 process (non-incremental), returning result and model text.
-func Standalone(cond *Term, solver string, wantModel bool) (string, map[string]uint64, time.Duration) {
+// smtScript renders cond (cone of influence only) as a standalone SMT-LIB2 script.
+func smtScript(cond *Term, wantModel bool) (string, []*Term) {
 	var sb strings.Builder
+	if wantModel {
+		sb.WriteString("(set-option :produce-models true)\n")
+	}
 	sb.WriteString("(set-logic QF_BV)\n")
 	seen := map[int]bool{}
 	var vars []*Term
-	var emit func(t *Term)
-	emit = func(t *Term) {
-		if seen[t.id] {
-			return
+	// iterative post-order (deep terms would overflow a recursive walk only in theory; keep it simple but safe)
+	type fr struct {
+		t *Term
+		i int
+	}
+	stack := []fr{{cond, 0}}
+	for len(stack) > 0 {
+		top := &stack[len(stack)-1]
+		t := top.t
+		if top.i == 0 && seen[t.id] {
+			stack = stack[:len(stack)-1]
+			continue
 		}
-		seen[t.id] = true
-		switch t.op {
-		case OConst:
-			return
-		case OVar:
+		if t.op == OConst {
+			seen[t.id] = true
+			stack = stack[:len(stack)-1]
+			continue
+		}
+		if t.op == OVar {
+			seen[t.id] = true
 			vars = append(vars, t)
 			fmt.Fprintf(&sb, "(declare-const %s %s)\n", t.ref(), sortStr(t))
-			return
+			stack = stack[:len(stack)-1]
+			continue
 		}
-		for _, a := range t.args {
-			emit(a)
+		if top.i < len(t.args) {
+			a := t.args[top.i]
+			top.i++
+			if !seen[a.id] {
+				stack = append(stack, fr{a, 0})
+			}
+			continue
 		}
+		seen[t.id] = true
 		fmt.Fprintf(&sb, "(define-fun %s () %s %s)\n", t.ref(), sortStr(t), t.body())
+		stack = stack[:len(stack)-1]
 	}
-	emit(cond)
 	fmt.Fprintf(&sb, "(assert %s)\n(check-sat)\n", cond.ref())
 	if wantModel {
 		for _, v := range vars {
 			fmt.Fprintf(&sb, "(get-value (%s))\n", v.ref())
 		}
 	}
+	return sb.String(), vars
+}
+
+var dumpMu sync.Mutex
+
+// solveScript runs one solver process on the script. Any "(error" line makes the answer "error".
+func solveScript(smt string, vars []*Term, solver string, timeout int) (string, map[string]uint64, time.Duration) {
 	if DumpDir != "" {
+		dumpMu.Lock()
 		dumpN++
-		os.WriteFile(fmt.Sprintf("%s/obl%03d.smt2", DumpDir, dumpN), []byte(sb.String()), 0o644)
+		os.WriteFile(fmt.Sprintf("%s/obl%03d.smt2", DumpDir, dumpN), []byte(smt), 0o644)
+		dumpMu.Unlock()
 	}
 	t0 := time.Now()
-	args := []string{"-in", "-smt2", "-T:" + fmt.Sprint(Timeout)}
-	if solver == "cvc5" {
-		args = []string{"--lang=smt2", "--produce-models"}
+	var args []string
+	switch solver {
+	case "cvc5":
+		args = []string{"--lang=smt2", "--produce-models", fmt.Sprintf("--tlimit=%d", timeout*1000)}
+	default:
+		args = []string{"-in", "-smt2", "-T:" + fmt.Sprint(timeout)}
 	}
 	cmd := exec.Command(solver, args...)
-	in := sb.String()
-	if wantModel {
-		in = "(set-option :produce-models true)\n" + in
-	}
-	cmd.Stdin = strings.NewReader(in)
+	cmd.Stdin = strings.NewReader(smt)
 	out, _ := cmd.Output()
 	d := time.Since(t0)
-	lines := strings.Split(strings.TrimSpace(string(out)), "\n")
-	res := lines[0]
+	text := strings.TrimSpace(string(out))
+	lines := strings.Split(text, "\n")
+	res := strings.TrimSpace(lines[0])
+	if strings.Contains(text, "(error") && res != "sat" && res != "unsat" {
+		return "error", nil, d
+	}
+	switch res {
+	case "sat", "unsat":
+	case "timeout", "unknown", "":
+		if d >= time.Duration(timeout)*time.Second-time.Second {
+			res = "timeout"
+		} else if res == "" {
+			res = "error"
+		}
+	default:
+		res = "error"
+	}
 	m := map[string]uint64{}
-	if res == "sat" && wantModel {
+	if res == "sat" {
 		for i, v := range vars {
 			if i+1 >= len(lines) {
 				break
 			}
 			line := strings.TrimSpace(lines[i+1])
+			if strings.HasPrefix(line, "(error") {
+				return "error", nil, d
+			}
 			j := strings.LastIndex(line, " ")
 			val := strings.TrimRight(line[j+1:], ")")
 			var u uint64
@@ -200,4 +247,22 @@ func Standalone(cond *Term, solver string, wantModel bool) (string, map[string]u
 		}
 	}
 	return res, m, d
+}
+
+// crossCheck re-solves the script with z3 4.8.12 and cvc5; a different definite answer is a disagreement.
+func crossCheck(smt string, primary string, timeout int) string {
+	var notes []string
+	plain := strings.Replace(smt, "(set-option :produce-models true)\n", "", 1)
+	if i := strings.Index(plain, "(check-sat)"); i >= 0 {
+		plain = plain[:i] + "(check-sat)\n"
+	}
+	for _, sv := range []string{"z3", "cvc5"} {
+		r, _, d := solveScript(plain, nil, sv, timeout)
+		tag := fmt.Sprintf("%s=%s(%.1fs)", sv, r, d.Seconds())
+		if (r == "sat" || r == "unsat") && (primary == "sat" || primary == "unsat") && r != primary {
+			return "DISAGREE " + tag + " vs z3-new=" + primary
+		}
+		notes = append(notes, tag)
+	}
+	return strings.Join(notes, " ")
 }
